@@ -14,7 +14,7 @@ def parse(out):
     for l in out.split("\n"):
         if l.startswith("IN "): cur = {"size": int(l.split()[1]), "events": [], "calls": 0, "truncated": False}; res.append(cur)
         elif cur is None: continue
-        elif l.startswith("RET "): w = l.split(); cur["ret"] = int(w[1]); cur["usec"] = int(w[3]); cur["rsskb"] = int(w[5])
+        elif l.startswith("RET "): w = l.split(); cur["ret"] = int(w[1]); cur["usec"] = int(w[3]); cur["rsskb"] = int(w[5]); cur["maxreq"] = int(w[7]) if len(w) > 7 else 0
         elif l.startswith("CELLS "): cur["cells"] = int(l.split()[1])
         elif l == "C": cur["events"].append(("C",)); cur["calls"] += 1
         elif l.startswith("O "): cur["events"].append(("O", int(l.split()[1])))
@@ -45,13 +45,71 @@ def z_const_stream(n, mb=16):
     if nacc: out.append(acc & 255)
     return bytes(out)
 
+def lzx_variants(rng, blob):
+    """LZX archives with hostile declared sizes and junk member names, every entry header re-sealed with its CRC-32 (a plain byte
+    mutation never gets past the header CRC): yields (kind, bytes)"""
+    import struct, zlib
+    ents = []; pos = 10
+    while pos + 31 <= len(blob):
+        h = bytearray(blob[pos:pos + 31]); cs = struct.unpack_from("<I", h, 6)[0]; cl = h[14]; fl = h[30]
+        name = blob[pos + 31:pos + 31 + fl]; com = blob[pos + 31 + fl:pos + 31 + fl + cl]; data = blob[pos + 31 + fl + cl:pos + 31 + fl + cl + cs]
+        ents.append([h, name, com, data]); pos += 31 + fl + cl + cs
+    def seal(es):
+        out = bytearray(blob[:10])
+        for h, name, com, data in es:
+            h = bytearray(h); h[30] = len(name); h[14] = len(com); h[26:30] = bytes(4)
+            struct.pack_into("<I", h, 26, zlib.crc32(bytes(h) + name + com) & 0xffffffff)
+            out += h + name + com + data
+        return bytes(out)
+    big = (0x20000000, 0x1fffffff, 0x20000001, 0x7fffffff, 0x80000000, 0xffffffff, 0x10000000)
+    junk = (b"README", b"notes.txt", b"file_id.diz", b"x.nfo", b"mod.x")
+    for _ in range(24):
+        es = [[bytearray(h), n, c, d] for h, n, c, d in ents]
+        # extra members of a merged group (no compressed data of their own) in front of the one that carries the data
+        for k in range(rng.choice((0, 1, 2, 5))):
+            h = bytearray(es[0][0]); struct.pack_into("<II", h, 2, rng.choice(big), 0); h[12] |= 1
+            es.insert(rng.randrange(0, len(es)), [h, rng.choice(junk), b"", b""])
+        for e in es:
+            if rng.random() < 0.4: struct.pack_into("<I", e[0], 2, rng.choice(big))
+            if rng.random() < 0.3: e[1] = rng.choice(junk)
+            if rng.random() < 0.1: e[0][12] ^= 1
+        yield "lzx-sizes", seal(es)
+    # merged groups padded with members that are not modules (names the library excludes) and whose declared sizes are each legal
+    # but add up past the unpack ceiling; the real members are left alone
+    legal = (0x20000000, 0x1fffffff, 0x10000000, 0x18000000)
+    for npad in (1, 2, 3, 5, 8):
+        for where in ("front", "middle", "mixed"):
+            es = [[bytearray(h), n, c, d] for h, n, c, d in ents]
+            last = max((i for i, e in enumerate(es) if e[0][12] & 1), default=len(es) - 1)
+            for k in range(npad):
+                h = bytearray(es[0][0]); struct.pack_into("<II", h, 2, rng.choice(legal), 0); h[12] |= 1
+                at = 0 if where == "front" else last if where == "middle" else rng.randrange(0, last + 1)
+                es.insert(at, [h, rng.choice((b"README", b"notes.txt", b"file_id.diz", b"x.nfo", b"a.doc")), b"", b""]); last += 1
+            yield "lzx-merge-padding", seal(es)
+            # ... and the same with the member that carries the group's compressed data being one of the excluded ones
+            es2 = [[bytearray(h), n, c, d] for h, n, c, d in es]
+            carriers = [i for i, e in enumerate(es2) if struct.unpack_from("<I", e[0], 6)[0] > 0]
+            if carriers:
+                es2[carriers[0]][1] = b"z.txt"
+                if rng.random() < 0.5: struct.pack_into("<I", es2[carriers[0]][0], 2, rng.choice(legal))
+                yield "lzx-merge-padding", seal(es2)
+
+def iff_variants(rng, data):
+    """an unknown chunk with a hostile declared length appended to (or spliced into) an IFF-style module, in both byte orders"""
+    import struct
+    for ln in (0, 1, 0x7fffffff, 0x80000000, 0xfffffff8, 0xfffffff0, 0xffffffff, 0xfffffffc, 0x80000008, 0xffffff00):
+        for fmt in (">I", "<I"):
+            ch = b"JUNK" + struct.pack(fmt, ln)
+            yield "iff-chunk-length", data + ch
+            yield "iff-chunk-length", data + ch + bytes(rng.randrange(256) for _ in range(rng.choice((1, 8, 40))))
+
 def main():
     tier = sys.argv[1] if len(sys.argv) > 1 else "quick"
     replay = sys.argv[sys.argv.index("--replay") + 1] if "--replay" in sys.argv else None
     ck = V.Check("C02", tier)
     rng = ck.rng
     ck.proof_leg(["Extract/Extract_scanskel.vo"])
-    drv = V.build_driver("c02_drv", ["c02_drv.c"])
+    drv = V.build_driver("c02_drv", ["c02_drv.c"], wraps=("malloc", "calloc", "realloc"))
     model = V.ocaml_build("scanskel")
     env = V.san_env()
     tmpd = tempfile.mkdtemp(prefix="vp-c02-", dir="/var/tmp")
@@ -80,6 +138,19 @@ def main():
                 for kind, blob in mutate.mutants(data, rng, 1, 2, 3):
                     p = os.path.join(tmpd, "v%05d" % k); k += 1; open(p, "wb").write(blob)
                     jobs.append((p, "L", "mutant-" + kind)); jobs.append((p, "T", "mutant-" + kind))
+            # structured mutants for formats whose fields are sealed by a checksum or walked chunk by chunk
+            for f in ("lzxmerge", "lzxdata", "lzxstore"):
+                fp = os.path.join(V.REPO, "test-dev", "data", f)
+                if os.path.exists(fp):
+                    for kind, blob in lzx_variants(rng, open(fp, "rb").read()):
+                        p = os.path.join(tmpd, "v%05d" % k); k += 1; open(p, "wb").write(blob); jobs.append((p, "L", "mutant-" + kind)); jobs.append((p, "T", "mutant-" + kind))
+            iff_ext = (".okt", ".dbm", ".mdl", ".psm", ".j2b", ".dtm", ".emod", ".pt36", ".arch", ".musx")
+            iffs = [f for f in V.corpus_files() if f.lower().endswith(iff_ext) and os.path.getsize(f) < 200000]
+            byext = {}
+            for f in sorted(iffs): byext.setdefault(os.path.splitext(f)[1].lower(), f)
+            for f in byext.values():
+                for kind, blob in iff_variants(rng, open(f, "rb").read()):
+                    p = os.path.join(tmpd, "v%05d" % k); k += 1; open(p, "wb").write(blob); jobs.append((p, "L", "mutant-" + kind))
             songs = {}
             for i in range(60 if tier == "quick" else 1500):
                 fmt = ("mod", "xm", "s3m", "it")[i % 4]
@@ -132,6 +203,7 @@ def main():
             elif "over-ceiling" in lab and x["ret"] >= 0: bad = "a stream expanding past the 512 MiB unpack ceiling was accepted (ret %d)" % x["ret"]
             elif "over-ceiling" in lab and x["rsskb"] > (512 + 160) * 1024: bad = "peak resident set grew by %d MiB on a stream that must be refused at the 512 MiB ceiling" % (x["rsskb"] // 1024)
             elif "over-ceiling" not in lab and x["rsskb"] > rss_limit_kb(x["size"] + 8 * unpacked): bad = "%s grew the peak resident set by %d MiB on %d bytes" % ("load" if mode == "L" else "test", x["rsskb"] // 1024, x["size"])
+            elif x.get("maxreq", 0) > (512 + 16) << 20: bad = "%s asked the allocator for %d MiB in one request on %d bytes of input (the library's unpack ceiling is 512 MiB)" % ("load" if mode == "L" else "test", x["maxreq"] >> 20, x["size"])
             elif x.get("frame_usec", 0) > 2_000_000: bad = "the first frame took %.2f s" % (x["frame_usec"] / 1e6)
             elif x.get("mixratio", 0.0) > 1.0: bad = "the mixer's inner loop ran %.2f times the proved bound (maxvoc * 2 * ticksize iterations per tick, hook H5)" % x["mixratio"]
             elif x.get("worst_frame_usec", 0) > 400_000: bad = "one frame of the first 40 took %.2f s" % (x["worst_frame_usec"] / 1e6)
